@@ -55,12 +55,14 @@ fn build(case: &str, mode: &str, v: Vis, item_vis: &str, site: &str) -> Probe {
     let extra = ["", ", unimock = false", ", mock_api = TheMock", ", mockall = false", ", ?Send"][n % 5];
     let (item, name) = match mode {
         "fn" => (format!("#[::entrait::entrait({vs}TheTrait{extra})]\n{item_vis}fn the_fn(_deps: &impl Sized) {{}}"), "TheTrait"),
-        "mod" => (format!("#[::entrait::entrait({vs}TheTrait{extra})]\n{item_vis}mod m {{ pub fn f(_deps: &impl Sized) {{}} }}"), "TheTrait"),
+        "mod" | "mod_path" => (format!("#[::entrait::entrait({vs}TheTrait{extra})]\n{item_vis}mod m {{ pub fn f(_deps: &impl Sized) {{}} }}"), "TheTrait"),
         // the delegation-target trait takes the visibility of the original trait, whatever is written before its name
         "trait_static" => (format!("#[::entrait::entrait({item_vis}TrImpl, delegate_by = DelegateTr{extra})]\n{vs}trait Tr {{ fn m(&self); }}"), "TrImpl"),
         _ => (format!("#[::entrait::entrait({item_vis}TrImpl, delegate_by = ref{extra})]\n{vs}trait Tr {{ fn m(&self); }}"), "TrImpl"),
     };
-    let site_fn = |rel: &str| format!("#[allow(unused_imports)] fn site() {{ use {rel}::{name} as _; }}");
+    // `mod_path`: reach the trait through the module it was generated in (`c::m::TheTrait`) instead of the re-export
+    let via = if mode == "mod_path" { "::m" } else { "" };
+    let site_fn = |rel: &str| format!("#[allow(unused_imports)] fn site() {{ use {rel}{via}::{name} as _; }}");
     let s = |cond: &str, rel: &str| if site == cond { site_fn(rel) } else { String::new() };
     let src = format!(
         "#![allow(warnings)]\npub mod a {{\n  pub mod b {{\n    pub mod c {{\n{}\n      {}\n      pub mod child {{ {} }}\n    }}\n    pub mod sibling {{ {} }}\n  }}\n  pub mod uncle {{ {} }}\n}}\npub mod cousin {{ {} }}\n{}\npub fn run() -> Vec<String> {{ vec![] }}\n",
@@ -73,7 +75,10 @@ fn build(case: &str, mode: &str, v: Vis, item_vis: &str, site: &str) -> Probe {
         s("root", "self::a::b::c"),
     );
     let summary = format!("{mode}: requested `{}` item `{}` named from `{site}`", vs.trim(), item_vis.trim());
-    Probe { src, expect_ok: accessible(v, site), summary }
+    // through the module path the trait is reachable only where the module itself is, and never wider than requested
+    let module_visible = item_vis.starts_with("pub") || matches!(site, "same" | "child");
+    let expect_ok = if mode == "mod_path" { accessible(v, site) && module_visible } else { accessible(v, site) };
+    Probe { src, expect_ok, summary }
 }
 
 fn all_probes() -> Vec<(String, String, Vis, String, String)> {
@@ -90,6 +95,13 @@ fn all_probes() -> Vec<(String, String, Vis, String, String)> {
         for iv in ["", "pub "] {
             for s in SITES {
                 out.push(("mod".to_string(), String::new(), v, iv.to_string(), s.to_string()));
+            }
+        }
+    }
+    for v in [Vis::Private, Vis::Pub, Vis::PubCrate] {
+        for iv in ["", "pub "] {
+            for s in SITES {
+                out.push(("mod_path".to_string(), String::new(), v, iv.to_string(), s.to_string()));
             }
         }
     }
@@ -121,7 +133,7 @@ fn compile_single(src: &str) -> Result<(), String> {
 
 pub fn run(ctx: &mut Ctx) {
     ctx.rule = "the complete lattice {fn x requested {none, pub, pub(crate), pub(super), pub(in path)} x fn visibility {none, pub, pub(crate)}} + {mod x requested {none, pub, pub(crate)} x mod \
-                visibility {none, pub}} + {trait, static and ref delegation (delegation-target trait) x trait visibility (5) x visibility keyword written before the target trait's name {none, pub, pub(crate)}} x 6 access sites (defining module, child, sibling, uncle, case root, cousin); one compiled probe \
+                visibility {none, pub}, named through the re-export and through the module path} + {trait, static and ref delegation (delegation-target trait) x trait visibility (5) x visibility keyword written before the target trait's name {none, pub, pub(crate)}} x 6 access sites (defining module, child, sibling, uncle, case root, cousin); one compiled probe \
                 per point; non-trivial = probes expected to be rejected (the trait must not be wider than requested) - counted distinct by (mode, visibilities, site)"
         .into();
     ctx.assumptions.push("don't-cares: module mode with pub(super)/pub(in path) (documented as unsupported), the visibility of the selector trait `DelegateTr`; the other-crate site is not built".into());
